@@ -305,6 +305,100 @@ impl World {
 				format!("node {}: original {:?} / read back {:?}", n, a, b),
 			);
 		}
+		// pending events and the completion actions attached to them (hooks H6/H7): reading back may
+		// add events (what start-up regenerates from the monitors), it never loses or reorders one
+		// of the original's, nor its action
+		{
+			let render = |m: &SimManager| -> Vec<String> {
+				let evs = m.verif_pending_events();
+				let acts = m.verif_pending_event_actions();
+				evs.iter().zip(acts.iter()).map(|(e, a)| format!("{:?} / action {:?}", e, a)).collect()
+			};
+			let (ea, eb) = (render(&mgr), render(&shadow));
+			self.out.bump("oracle:C12-b pending events and their actions survive write/read");
+			if ea.iter().any(|x| x.contains("action Some")) {
+				self.out.bump("probe:roundtrip_manager_with_event_completion_action");
+				if ea.iter().any(|x| x.contains("action None")) {
+					self.out.bump("probe:roundtrip_manager_with_mixed_event_queue");
+				}
+			}
+			let mut j = 0;
+			let mut missing = None;
+			for x in ea.iter() {
+				while j < eb.len() && &eb[j] != x {
+					j += 1;
+				}
+				if j >= eb.len() {
+					missing = Some(x.clone());
+					break;
+				}
+				j += 1;
+			}
+			if let Some(x) = missing {
+				let short = |v: &Vec<String>| -> Vec<String> { v.iter().map(|s| s.chars().take(160).collect()).collect() };
+				self.violate(
+					"C12",
+					"C12-b manager loses a pending event or its completion action after write/read",
+					format!("node {}: {} is not (in order) in the read-back queue; original {:?} / read back {:?}", n, x.chars().take(300).collect::<String>(), short(&ea), short(&eb)),
+				);
+			}
+		}
+		// balances, limits and outbound HTLCs of channels whose HTLCs are all committed on both sides
+		// (nothing for the implied disconnection to drop or to hold back)
+		{
+			use lightning::ln::channel_state::{InboundHTLCStateDetails as I, OutboundHTLCStateDetails as O};
+			let row = |d: &lightning::ln::channel_state::ChannelDetails| -> Option<(String, String)> {
+				let quiet = d.pending_inbound_htlcs.iter().all(|h| matches!(h.state, Some(I::Committed)))
+					&& d.pending_outbound_htlcs.iter().all(|h| matches!(h.state, Some(O::Committed)));
+				if !quiet || !d.is_channel_ready {
+					return None;
+				}
+				let mut outb: Vec<(Option<u64>, u64, u32)> =
+					d.pending_outbound_htlcs.iter().map(|h| (h.htlc_id, h.amount_msat, h.cltv_expiry)).collect();
+				outb.sort();
+				Some((
+					format!("{}", d.channel_id),
+					format!(
+						"out_cap {} in_cap {} next_out_max {} next_out_min {} feerate {:?} out{:?}",
+						d.outbound_capacity_msat,
+						d.inbound_capacity_msat,
+						d.next_outbound_htlc_limit_msat,
+						d.next_outbound_htlc_minimum_msat,
+						d.feerate_sat_per_1000_weight,
+						outb
+					),
+				))
+			};
+			let la: Vec<(String, String)> = mgr.list_channels().iter().filter_map(|d| row(d)).collect();
+			let lb: Vec<(String, String)> = shadow.list_channels().iter().filter_map(|d| row(d)).collect();
+			// an update_add_htlc the peer has sent but not yet signed for (RemoteAnnounced on this side)
+			// is invisible in ChannelDetails and omitted by write(): only channels on which neither
+			// side has an unsigned update on the wire are compared
+			let mut noisy: Vec<String> = Vec::new();
+			for (ci, c) in self.chans.iter().enumerate() {
+				let l = &self.ledgers[ci];
+				let queued = self.queues.get(&(c.a, c.b)).map(|q| !q.is_empty()).unwrap_or(false)
+					|| self.queues.get(&(c.b, c.a)).map(|q| !q.is_empty()).unwrap_or(false);
+				if queued || l.disabled || !l.have_params || !l.sides[0].pending.is_empty() || !l.sides[1].pending.is_empty() {
+					noisy.push(format!("{}", c.channel_id));
+				}
+			}
+			for (id, x) in la.iter() {
+				if closing.contains(id) || noisy.contains(id) {
+					continue;
+				}
+				if let Some((_, y)) = lb.iter().find(|(i, _)| i == id) {
+					self.out.bump("oracle:C12-b balances and limits survive write/read");
+					if x != y {
+						self.violate(
+							"C12",
+							"C12-b manager shows different balances or limits after write/read",
+							format!("node {} channel {}: original {} / read back {}", n, id, x, y),
+						);
+					}
+				}
+			}
+		}
 		let pay = |m: &SimManager| -> Vec<String> {
 			let mut v: Vec<String> = m
 				.list_recent_payments()
